@@ -48,6 +48,7 @@ Cls == {"ltr", "sp", "tab", "lf", "cr", "lt", "gt", "amp", "quot", "apos",
 EntWords == {"w:amp", "w:lt", "w:gt", "w:quot", "w:apos", "w:#13", "w:#10",
              "w:#9"}
 Words == EntWords \cup {"w:cdo", "w:V", "w:/V"}
+ClsNoCr == Cls \ {"cr"}
 TCh == Cls \cup Words \cup {"semi"}
 
 AsIs    == [crEsc |-> FALSE, attrEsc |-> FALSE]
@@ -203,16 +204,16 @@ NestEnc(s, a, d, mode, V) ==
   IF d = 0 THEN Enc(s, mode, V)
   ELSE Enc(Wrap(EncAttr(a, V), NestEnc(s, a, d - 1, mode, V)), mode, V)
 
-(* reading it back: [ok, s, a]  (a: the innermost attribute value)         *)
+(* reading it back: [ok, s, as]  (as: the attribute value of every level,  *)
+(* outermost first)                                                        *)
 RECURSIVE NestRead(_, _)
 NestRead(t, d) ==
   LET r == XmlRead(t) IN
-  IF ~r.ok THEN [ok |-> FALSE, s |-> <<>>, a |-> <<>>]
-  ELSE IF d = 0 THEN [ok |-> TRUE, s |-> r.s, a |-> <<>>]
+  IF ~r.ok THEN [ok |-> FALSE, s |-> <<>>, as |-> <<>>]
+  ELSE IF d = 0 THEN [ok |-> TRUE, s |-> r.s, as |-> <<>>]
   ELSE LET u == Unwrap(r.s) IN
-       IF ~u.ok THEN [ok |-> FALSE, s |-> <<>>, a |-> <<>>]
+       IF ~u.ok THEN [ok |-> FALSE, s |-> <<>>, as |-> <<>>]
        ELSE LET in == NestRead(u.text, d - 1)
                 at == AttrRead(u.attr) IN
-            [ok |-> in.ok /\ at.ok, s |-> in.s,
-             a |-> IF d = 1 THEN at.s ELSE in.a]
+            [ok |-> in.ok /\ at.ok, s |-> in.s, as |-> <<at.s>> \o in.as]
 =============================================================================
